@@ -6,7 +6,9 @@
 //	        @sched: instance schedule, digits = instance ids, an event of an instance that holds no ammo is
 //	        an Acquire, otherwise the shoot (request materialised, body read) + Release of what it holds;
 //	        then optionally %n,n,..: the ammo file is read in short reads of these sizes, cyclically;
-//	        then optionally ^hex.hex...: the provider's configured default headers, one "[Name: value]" each)
+//	        then optionally ^hex.hex...: the provider's configured default headers, one "[Name: value]" each;
+//	        then optionally ~mw,mw...: the provider's middlewares: d<loc>.<hexname> = header/date, f<n> = a middleware
+//	        whose UpdateRequest fails at its n-th call, i = a middleware whose InitMiddleware fails)
 //	uripost <passes p> <finalNL> <file> <line tokens...>
 //	raw     <passes p> <finalNL> <file> <line tokens...>
 //	json    <passes p> <array 0|1> <file> <entity tokens...>
@@ -37,11 +39,20 @@ func runCase(c string) string {
 	// then optionally "@<schedule>": instance schedule, see a07ammo/sched.go
 	// and optionally "%<n,n,...>": the file hands out its content in short reads of these sizes (cyclic)
 	// and optionally "^<hex>.<hex>...": the provider's configured default headers (`headers:` list)
-	pf, cfgSpec, hasCfg := strings.Cut(f[1], "^")
+	// and optionally "~<mw>,<mw>...": the provider's middlewares (a07ammo.MWSpec)
+	pf, mwSpec, hasMW := strings.Cut(f[1], "~")
+	var opts a07ammo.ProvOpts
+	if hasMW {
+		for _, m := range strings.Split(mwSpec, ",") {
+			opts.MW = append(opts.MW, a07ammo.MWSpec(m))
+		}
+	}
+	pf, cfgSpec, hasCfg := strings.Cut(pf, "^")
 	var cfgHeaders []string
 	if hasCfg {
 		cfgHeaders = a07ammo.ParseCfgField(cfgSpec)
 	}
+	opts.Headers = cfgHeaders
 	pf, chunkSpec, hasChunks := strings.Cut(pf, "%")
 	pf, sched, hasSched := strings.Cut(pf, "@")
 	var chunks []int
@@ -68,15 +79,15 @@ func runCase(c string) string {
 		}
 		switch f[0] {
 		case "uri", "uripost", "raw", "json":
-			return a07ammo.RunProviderSchedCfg(dec, file, preload, sched, chunks, cfgHeaders)
+			return a07ammo.RunProviderSchedX(dec, file, preload, sched, chunks, opts)
 		}
 		return "unknown-case"
 	}
 	switch f[0] {
 	case "uri", "uripost", "raw":
-		return a07ammo.RunProviderCfg(f[0], file, p*n+1, 0, 0, preload, cfgHeaders)
+		return a07ammo.RunProviderX(f[0], file, p*n+1, 0, 0, preload, opts)
 	case "json":
-		return a07ammo.RunProviderCfg("jsonline", file, p*n+1, 0, 0, preload, cfgHeaders)
+		return a07ammo.RunProviderX("jsonline", file, p*n+1, 0, 0, preload, opts)
 	}
 	return "unknown-case"
 }
@@ -89,6 +100,7 @@ func gen(r *vh.Rand, tier string) []string {
 	out := a07ammo.GenBigCases(r, tier == "thorough")
 	out = append(out, a07ammo.GenRound5Cases(r, n/5)...)
 	out = append(out, a07ammo.GenCfgCases(r, n/5)...)
+	out = append(out, a07ammo.GenMWCases(r, n/10)...)
 	for i := 0; i < n; i++ {
 		out = append(out, a07ammo.GenURICase(r))
 		out = append(out, a07ammo.GenURIPostCase(r))
